@@ -15,4 +15,29 @@ PROPS = {
         residual="U-RUN arms (BeginAtomic/EndAtomic/FailNegativeLookAround) are owned by C20 as soon as U-RUN is wired; until then only the State discipline is decided.",
         assumptions=[T_VSTD, T_ARITH, T_EXTRACT, "T-swap: <[T]>::swap swaps two in-bounds elements", "T-veclen: a Vec's length is <= usize::MAX (<= isize::MAX for Vec<usize>)"],
     ),
+    'C08': dict(
+        level='proof',
+        explanation=("Matches::next (find_iter) is verified by Verus to be exactly one step of the reference iteration model transcribed from the property "
+                     "(search from the previous end with the skipped-empty flag, step one character after an empty match, drop an empty match adjacent to the previous match, "
+                     "after an Err nothing more) for EVERY behaviour of an uninterpreted search function that satisfies the search contract pos <= start <= end <= len on char boundaries; "
+                     "termination of the self-recursion is proved (decreases); lemma_it_monotone proves on the model that yielded spans never start before the previous end and are strictly increasing; "
+                     "find_iter starts in the model's initial state."),
+        residual="That the VM engine satisfies the search contract is U-RUN's postcondition (assumed here, T-find); regex-automata's search is assumed to satisfy it; the reference 'leftmost match' itself is C01.",
+        assumptions=[T_VSTD, T_ARITH, T_EXTRACT, "T-find: find_from_pos_with_option_flags returns find_spec(re,text,pos,flags) and a found span satisfies pos <= start <= end <= len on char boundaries",
+                     "T-strlen: a str is at most isize::MAX bytes", "next_utf8's contract (proved in U-UTF8)"],
+    ),
+    'C09': dict(
+        level='proof',
+        explanation=("CaptureMatches::next is verified to perform the SAME reference-model step as Matches::next on the span of group 0 (so captures_iter yields exactly the spans find_iter yields, "
+                     "in the same order, including the skipped-empty-match flag and the Err history); Match::new builds the span it is given; captures_iter starts in the initial state."),
+        residual="is_match / find / captures coherence for one call is decided in U-FIND (same vm::run call, determinism); the Wrap arm relies on regex-automata's three entry points being coherent (assumed).",
+        assumptions=[T_VSTD, T_ARITH, T_EXTRACT, "T-find / T-captures: captures_from_pos_with_option_flags is the same search as find_from_pos_with_option_flags and Captures::get(0) is its span"],
+    ),
+    'C10': dict(
+        level='proof',
+        explanation=("Split::next and SplitN::next are verified equal to one step of the reference split/splitn model over the find_iter model (piece = text between previous match end and next match start, "
+                     "remainder exactly once, n = 0 yields nothing, the n-th item is the untouched remainder), with every slice proved in bounds and on character boundaries; split/splitn start in the initial state."),
+        residual="Same search contract as C08 (T-find).",
+        assumptions=[T_VSTD, T_ARITH, T_EXTRACT, "T-find", "T-strslice: &s[a..b] on str yields the byte sub-range (vstd gives only its precondition)"],
+    ),
 }
